@@ -88,7 +88,22 @@ def _run_sites_rule(run, rule_id="F-VIEW"):
                 for a in ast.walk(f.node))
             run.ob(ok, construct, file=mod.rel, line=c.lineno, detail="_ref_spec.unchanged-only-for-type-views", expected="unchanged spec only for .unsigned/.signed/.bitvector", found=src(c.args[0]))
             continue
-        ok = isinstance(ref, ast.List) and len(ref.elts) == 2 and isinstance(ref.elts[0], ast.Starred) and dotted(ref.elts[0].value) == "prev" and isinstance(ref.elts[1], ast.Call) and dotted(ref.elts[1].func) in ("Slice", "Offset")
+        # [*<the receiver's reference spec without the slice being refined>, Slice|Offset(..)]: the starred local is
+        # assigned from the receiver's _ref_spec (whatever it is called)
+        def _from_ref_spec(e):
+            if not isinstance(e, ast.Name):
+                return False
+            defs = [a.value for a in ast.walk(f.node) if isinstance(a, ast.Assign) and dotted(a.targets[0]) == e.id]
+            seen = set()
+            while defs:
+                d = defs.pop()
+                if "_ref_spec" in src(d):
+                    return True
+                for nm in [x.id for x in ast.walk(d) if isinstance(x, ast.Name) and x.id not in seen]:
+                    seen.add(nm)
+                    defs.extend(a.value for a in ast.walk(f.node) if isinstance(a, ast.Assign) and dotted(a.targets[0]) == nm)
+            return False
+        ok = isinstance(ref, ast.List) and len(ref.elts) == 2 and isinstance(ref.elts[0], ast.Starred) and _from_ref_spec(ref.elts[0].value) and isinstance(ref.elts[1], ast.Call) and dotted(ref.elts[1].func) in ("Slice", "Offset")
         run.ob(ok, construct, file=mod.rel, line=c.lineno, detail="_ref_spec", expected="[*prev, Slice|Offset(<index>, base_offset)]", found=t[:80])
         if ok:
             last = ref.elts[1]
